@@ -71,10 +71,6 @@ Definition node_in (g : graph) (n : node) : Prop :=
 Definition ids_faithful (g : graph) : Prop :=
   forall n n', node_in g n -> node_in g n' -> nid n = nid n' -> n = n'.
 
-(** every typing triple has a node (not a literal) as its object *)
-Definition tau_ok (tau : str) (g : graph) : Prop :=
-  forall t, In t g -> tp t = tau -> is_node (to t) = true.
-
 (** ** ignored namespaces *)
 
 (** [p] is a direct child of namespace [ns]: [ns] is a prefix of [p] and what
